@@ -186,7 +186,8 @@ class Protocol:
         raw: bytes = message.pack_message(negotiated)
 
         code: str = 'send-{}'.format(Message.CODE.short(message.ID))
-        self.peer.stats[code] += 1
+        # not every message type has a pre-set counter (operational): a KeyError here ended the session silently
+        self.peer.stats[code] = self.peer.stats.get(code, 0) + 1
         if self._api.get(code, False):
             self._to_api('send', message, raw)
 
@@ -196,7 +197,8 @@ class Protocol:
         """Send raw BGP message using async I/O."""
         assert self.connection is not None
         code: str = 'send-{}'.format(Message.CODE.short(raw[18]))
-        self.peer.stats[code] += 1
+        # not every message type has a pre-set counter (operational): a KeyError here ended the session silently
+        self.peer.stats[code] = self.peer.stats.get(code, 0) + 1
         if self._api.get(code, False):
             # Parse the raw bytes to get an Update for API
             update = Update(raw[19:])
@@ -253,7 +255,8 @@ class Protocol:
         )
 
         code = 'receive-{}'.format(Message.CODE.short(msg_id))
-        self.peer.stats[code] += 1
+        # not every message type has a pre-set counter (operational): a KeyError here ended the session silently
+        self.peer.stats[code] = self.peer.stats.get(code, 0) + 1
         for_api = self._api.get(code, False)
 
         if for_api and packets and not consolidate:
